@@ -5,6 +5,7 @@ import (
 	"fmt"
 	"reflect"
 	"sort"
+	"strconv"
 	"strings"
 	"testing"
 
@@ -259,6 +260,7 @@ func TestC13(t *testing.T) {
 	fwd := interceptor.NewNamespaceNameTranslator(log.NewNoopLogger(), toGoMap(m1), map[string]string{})
 	back := interceptor.NewNamespaceNameTranslator(log.NewNoopLogger(), toGoMap(invPairs(m1)), map[string]string{})
 	fl := &filler{rng: rng, names: []string{"local-ns", "a", "b", "local", "xlocal-ns", "", "unmapped"}, keys: []string{"k1", "k2"}}
+	e.Stats["sparse_warmup_messages"] = sparseWarm(g, g.Roots, fl, fwd, back)
 	per := 1
 	if e.Thorough() {
 		per = 20
@@ -312,6 +314,51 @@ func TestC13(t *testing.T) {
 			if err1 != nil || err2 != nil || err3 != nil || !same || !midOK || !okA || !proto.Equal(mid, ref) || !proto.Equal(a, b) {
 				e.Violation(map[string]any{"what": fmt.Sprintf("history blob (JSON-encoded: %v) holding namespace %q: untouched by the empty direction=%v, translated blob decodes=%v and equals the reference=%v, round trip decodes=%v and restores the original=%v (%v %v %v)",
 					asJSON, name, same, midOK, proto.Equal(mid, ref), okA, proto.Equal(a, b), err1, err2, err3), "ops": []string{op}})
+			}
+		}
+	}
+	// (4c) a history blob that holds a mapped name AND needs the UTF-8 repair (invalid bytes in a failure message of another
+	// event of the same batch): what leaves the translator is the repaired batch with the name mapped in the right
+	// direction and nothing else changed; the inverse translation restores the (repaired) original
+	for _, name := range []string{"local-ns", "a", "b", "unmapped"} {
+		for _, failFirst := range []bool{false, true} {
+			started := &historypb.HistoryEvent{EventId: 2, EventType: enumspb.EVENT_TYPE_WORKFLOW_EXECUTION_STARTED,
+				Attributes: &historypb.HistoryEvent_WorkflowExecutionStartedEventAttributes{WorkflowExecutionStartedEventAttributes: &historypb.WorkflowExecutionStartedEventAttributes{ParentWorkflowNamespace: name, Identity: "local-ns"}}}
+			evs := []*historypb.HistoryEvent{plainPadEvent(1), started, failurePadEvent(3)}
+			if failFirst {
+				evs = []*historypb.HistoryEvent{failurePadEvent(1), started, plainPadEvent(3)}
+			}
+			blob, _ := evSerializer.SerializeEvents(evs)
+			m := proto.Message(&adminservice.GetWorkflowExecutionRawHistoryV2Response{HistoryBatches: []*commonpb.DataBlob{blob}})
+			repaired := proto.Clone(m) // what the repair alone makes of the batch
+			legacyRoundTripBlobs(repaired.ProtoReflect())
+			mapEventBlobs(repaired.ProtoReflect(), func(evs []*historypb.HistoryEvent) []*historypb.HistoryEvent {
+				for _, ev := range evs {
+					if f := ev.GetActivityTaskFailedEventAttributes().GetFailure(); f != nil && f.Message == badUTF8Marker {
+						f.Message = strings.Replace(badUTF8Marker, "~^~^", "\uFFFD", 1)
+					}
+				}
+				return evs
+			})
+			ref := proto.Clone(repaired)
+			refTranslate(ref.ProtoReflect(), refOpts{ns: toGoMap(m1)})
+			if corruptBlobs(m.ProtoReflect()) == 0 {
+				continue
+			}
+			_, err1 := fwd.TranslateRequest(m)
+			mid := proto.Clone(m)
+			_, err2 := back.TranslateRequest(m)
+			a := proto.Clone(m)
+			okMid, okA := canonBlobs(mid.ProtoReflect()), canonBlobs(a.ProtoReflect())
+			canonBlobs(ref.ProtoReflect())
+			canonBlobs(repaired.ProtoReflect())
+			op := fmt.Sprintf("# repairedblobroundtrip failFirst=%v %s", failFirst, name)
+			e.Emit(op, "#")
+			e.Evals++
+			e.Count("repaired_blob_roundtrip")
+			if err1 != nil || err2 != nil || !okMid || !okA || !proto.Equal(mid, ref) || !proto.Equal(a, repaired) {
+				e.Violation(map[string]any{"what": fmt.Sprintf("history blob holding namespace %q in a batch that also needs the UTF-8 repair: translated blob decodes=%v and equals the repaired batch with the name mapped forward=%v; after the inverse translation decodes=%v and equals the repaired original=%v (%v %v)",
+					name, okMid, proto.Equal(mid, ref), okA, proto.Equal(a, repaired), err1, err2), "ops": []string{op}})
 			}
 		}
 	}
@@ -421,6 +468,7 @@ func TestC14(t *testing.T) {
 	// (1) every structural path to a search-attributes container, on real messages
 	roots := append([]int{}, g.Roots...)
 	sort.Ints(roots)
+	e.Stats["sparse_warmup_messages"] = sparseWarm(g, roots, &filler{rng: rng, names: []string{"ns-a", ""}, keys: []string{"k1"}}, tr, trOv)
 	seen := map[string]bool{}
 	doPath := func(p tPath, mp [][2]string, tr interceptor.Translator, keyPool []string, padMode int) {
 		nk := 1 + rng.IntN(4)
@@ -656,6 +704,20 @@ type fakeWfClient struct {
 
 func (f *fakeWfClient) ListNamespaces(ctx context.Context, in *workflowservice.ListNamespacesRequest, opts ...grpc.CallOption) (*workflowservice.ListNamespacesResponse, error) {
 	resp := &workflowservice.ListNamespacesResponse{Namespaces: []*workflowservice.DescribeNamespaceResponse{}}
+	if in.GetPageSize() > 0 { // a paged listing: the token is the index of the next entry
+		from := 0
+		if tok := in.GetNextPageToken(); len(tok) > 0 {
+			from, _ = strconv.Atoi(string(tok))
+		}
+		to := min(len(f.names), from+int(in.GetPageSize()))
+		for _, n := range f.names[min(from, len(f.names)):to] {
+			resp.Namespaces = append(resp.Namespaces, &workflowservice.DescribeNamespaceResponse{NamespaceInfo: &namespacepb.NamespaceInfo{Name: n}})
+		}
+		if to < len(f.names) {
+			resp.NextPageToken = []byte(strconv.Itoa(to))
+		}
+		return resp, nil
+	}
 	for _, n := range f.names {
 		resp.Namespaces = append(resp.Namespaces, &workflowservice.DescribeNamespaceResponse{NamespaceInfo: &namespacepb.NamespaceInfo{Name: n}})
 	}
@@ -917,6 +979,62 @@ func TestC16(t *testing.T) {
 					}
 				}
 			}
+		}
+	}
+	// ... and a listing that spans several pages, read the way a client reads it (page size 1..4, following the token the
+	// proxy returns): runs of forbidden namespaces filling whole pages, at the start, in the middle, at the end
+	nPaged := 60
+	if e.Thorough() {
+		nPaged = 1500
+	}
+	for i := 0; i < nPaged; i++ {
+		poolOK, poolBad := []string{"allowed-ns", "also-ok"}, []string{"forbidden-ns", "x", "allowed-ns2", "Allowed-NS", "secret-1", "secret-2", "secret-3"}
+		var names []string
+		for len(names) < 2+rng.IntN(12) {
+			run := 1 + rng.IntN(5) // runs of one kind: a whole page of forbidden names is likely
+			bad := rng.IntN(2) == 0
+			for k := 0; k < run; k++ {
+				if bad {
+					names = append(names, poolBad[rng.IntN(len(poolBad))])
+				} else {
+					names = append(names, poolOK[rng.IntN(len(poolOK))])
+				}
+			}
+		}
+		pageSize := int32(1 + rng.IntN(4))
+		srv := proxy.NewWorkflowServiceProxyServer("t", &fakeWfClient{names: names}, auth.NewAccesControl(allowed), noopLoggers())
+		var tok []byte
+		var got, wantOK []string
+		for _, n := range names {
+			if n == "allowed-ns" || n == "also-ok" {
+				wantOK = append(wantOK, n)
+			}
+		}
+		op := fmt.Sprintf("# listns-paged %s pagesize=%d %s", pstr, pageSize, strings.Join(names, " "))
+		bad := ""
+		for page := 0; page < len(names)+2; page++ {
+			resp, err := srv.ListNamespaces(context.Background(), &workflowservice.ListNamespacesRequest{PageSize: pageSize, NextPageToken: tok})
+			if err != nil {
+				t.Fatal(err)
+			}
+			for _, n := range resp.Namespaces {
+				got = append(got, n.NamespaceInfo.Name)
+				if n.NamespaceInfo.Name != "allowed-ns" && n.NamespaceInfo.Name != "also-ok" && bad == "" {
+					bad = fmt.Sprintf("page %d of the listing returned %q, a namespace outside the allow-list", page+1, n.NamespaceInfo.Name)
+				}
+			}
+			tok = resp.NextPageToken
+			if len(tok) == 0 {
+				break
+			}
+		}
+		e.Emit(op, "#")
+		e.Evals++
+		e.Count("listns_paged")
+		if bad != "" {
+			e.Violation(map[string]any{"what": "ListNamespaces, paged: " + bad, "ops": []string{op}})
+		} else if strings.Join(got, ",") != strings.Join(wantOK, ",") {
+			e.Count("listns_paged_not_every_allowed_name_returned") // not part of the property (it says "only"), recorded for the evidence
 		}
 	}
 	// end to end: translation runs before the check; the bypass header switches translation off, not the check
